@@ -1141,6 +1141,750 @@ theorem eulerStep_conserves_row (c : Cfg α) (s : St α) (tf dtminS dtmaxS : α)
   simp [processAll, advanced, stageX, entryX, zip3_length, hs, hcur]
 
 
+/-! ### the step never raises: totality of the composed Euler step and of whole Euler runs (C03's fault clause) -/
+
+open KawinV.Grid in
+theorem meshTarget_total (s : Grid.State α) (cd : Bool) (h : C08.Inv s) (hm : s.minBins / 2 < s.bins) :
+    ∃ r, Grid.meshTarget s cd = some r := by
+  obtain ⟨hn, hpl, hbl, hsl, hhead, hlast, -⟩ := C08.inv_spec s h
+  unfold Grid.meshTarget
+  split
+  · rw [hhead, hlast]
+    simp only
+    split
+    · exact ⟨_, rfl⟩
+    · split
+      · split
+        · have hg : ¬ (s.psd.length ≠ s.size.length ∨ s.psd.length + 1 ≠ s.bounds.length) := by
+            rw [hpl, hbl, hsl]; omega
+          rw [if_neg hg]
+          have : s.size[s.minBins / 2]? = some (s.size[s.minBins / 2]'(by rw [hsl]; exact hm)) :=
+            List.getElem?_eq_getElem _
+          rw [this]
+          simp only
+          split <;> exact ⟨_, rfl⟩
+        · exact ⟨_, rfl⟩
+      · exact ⟨_, rfl⟩
+  · exact ⟨_, rfl⟩
+
+open KawinV.Grid in
+theorem adjust_total (s : Grid.State α) (cd : Bool) (h : C08.Inv s) (hm : s.minBins / 2 < s.bins) :
+    ∃ r, Grid.adjust s cd = some r := by
+  obtain ⟨hn, hpl, -⟩ := C08.inv_spec s h
+  -- adjustAdd never raises on a consistent grid
+  have hadd : ∃ r, Grid.adjustAdd s = some r := by
+    unfold Grid.adjustAdd
+    have hne : s.psd ≠ [] := by intro h0; rw [h0] at hpl; simp at hpl; omega
+    obtain ⟨l, hl⟩ : ∃ l, s.psd.getLast? = some l := by
+      cases hg : s.psd.getLast? with
+      | none => rw [List.getLast?_eq_none_iff] at hg; exact absurd hg hne
+      | some l => exact ⟨l, rfl⟩
+    rw [hl]
+    simp only
+    split
+    · rw [C08.add_eq s _ h]; exact ⟨_, rfl⟩
+    · exact ⟨_, rfl⟩
+  obtain ⟨⟨s1, chg, ni⟩, h1⟩ := hadd
+  have hi1 := C08.adjustAdd_inv s s1 chg ni h h1
+  have hb1 : s1.minBins / 2 < s1.bins := by
+    unfold Grid.adjustAdd at h1
+    split at h1
+    · simp at h1
+    · split at h1
+      · rw [C08.add_eq s _ h] at h1
+        simp only [Option.map_some, Option.some.injEq, Prod.mk.injEq] at h1
+        rw [← h1.1]; simp only; omega
+      · simp only [Option.some.injEq, Prod.mk.injEq] at h1
+        rw [← h1.1]; exact hm
+  obtain ⟨r, hr⟩ := meshTarget_total s1 cd hi1 hb1
+  unfold Grid.adjust
+  rw [h1]
+  simp only
+  rw [hr]
+  cases r with
+  | none => exact ⟨_, rfl⟩
+  | some t =>
+    obtain ⟨a, b, n⟩ := t
+    simp only
+    rw [C08.change_false_eq s1 a b (some n) hi1]
+    exact ⟨_, rfl⟩
+
+/-! shapes -/
+
+theorem setPh_length (l : List (PhaseSt α)) (p : Nat) (v : PhaseSt α) : (setPh l p v).length = l.length := by
+  simp [setPh]
+
+theorem createLookup_length (T : α) (tab : List (TablePh α)) (s : St α) :
+    (createLookup T tab s).ph.length = min s.ph.length tab.length := by
+  simp [createLookup]
+
+/-- the answers of one evaluation have one entry per phase (and one table per phase, should the lookup be rebuilt) -/
+def AnsShaped (c : Cfg α) (n : Nat) (a : EvalAns α) : Prop :=
+  a.ph.length = n ∧ (c.binary = true → a.table.length = n)
+
+theorem growthRate_length (c : Cfg α) (s : St α) (a : EvalAns α) (y : Slice α)
+    (hc : c.phases.length = s.ph.length) (ha : AnsShaped c s.ph.length a) (hy : y.ph.length = s.ph.length) :
+    (growthRate c s a y).1.ph.length = s.ph.length := by
+  unfold growthRate
+  split
+  · next hb =>
+    unfold growthBinary
+    simp only [List.length_map, zip3_length]
+    split
+    · rw [createLookup_length, ha.1, ha.2 hb, hc]; simp
+    · rw [ha.1, hc]; simp
+  · unfold growthMulti
+    simp only [List.length_map, zip3_length]
+    rw [ha.1, hy]; simp
+
+theorem createLookup_grid (T : α) (tab : List (TablePh α)) (s : St α) (q : Nat) (ps' : PhaseSt α)
+    (h : (createLookup T tab s).ph[q]? = some ps') : ∃ ps, s.ph[q]? = some ps ∧ ps'.grid = ps.grid := by
+  simp only [createLookup, List.getElem?_zipWith] at h
+  cases h2 : s.ph[q]? <;> cases h3 : tab[q]? <;> simp [h2, h3] at h
+  exact ⟨_, rfl, by rw [← h]⟩
+
+theorem growthRate_grid (c : Cfg α) (s : St α) (a : EvalAns α) (y : Slice α) (q : Nat) (ps' : PhaseSt α)
+    (h : (growthRate c s a y).1.ph[q]? = some ps') : ∃ ps, s.ph[q]? = some ps ∧ ps'.grid = ps.grid := by
+  unfold growthRate at h
+  split at h
+  · unfold growthBinary at h
+    simp only at h
+    generalize hs1 : (if c.maxTempChange < absS (y.temp - s.lookT) then createLookup y.temp a.table s else s) = s1 at h
+    have hs1g : ∀ ps1, s1.ph[q]? = some ps1 → ∃ ps, s.ph[q]? = some ps ∧ ps1.grid = ps.grid := by
+      intro ps1 h1
+      rw [← hs1] at h1
+      split at h1
+      · exact createLookup_grid _ _ _ _ _ h1
+      · exact ⟨ps1, h1, rfl⟩
+    simp only [List.getElem?_map, zip3_getElem?] at h
+    cases h1 : c.phases[q]? <;> cases h2 : s1.ph[q]? <;> cases h4 : a.ph[q]? <;> simp [h1, h2, h4] at h
+    obtain ⟨ps, hps, hg⟩ := hs1g _ h2
+    exact ⟨ps, hps, by rw [← h]; exact hg⟩
+  · unfold growthMulti at h
+    simp only [List.getElem?_map, zip3_getElem?] at h
+    cases h2 : s.ph[q]? <;> cases h4 : a.ph[q]? <;> cases h5 : y.ph[q]? <;> simp [h2, h4, h5] at h
+    refine ⟨_, rfl, ?_⟩
+    rw [← h]
+    unfold growthMultiPh
+    simp only
+    split
+    · rfl
+    · split
+      · split <;> rfl
+      · rfl
+
+/-- every phase of `l'` sits where a phase of `l` sat and carries its grid — except position `p`, which carries `g` -/
+def GridsAt (l l' : List (PhaseSt α)) (p : Nat) (g : Grid.State α) : Prop :=
+  ∀ q ps', l'[q]? = some ps' → (q = p ∧ ps'.grid = g) ∨ (q ≠ p ∧ ∃ psq, l[q]? = some psq ∧ ps'.grid = psq.grid)
+
+theorem gridsAt_set (l l1 : List (PhaseSt α)) (p : Nat) (g : Grid.State α) (v : PhaseSt α) (hv : v.grid = g)
+    (h : GridsAt l l1 p g) : GridsAt l (setPh l1 p v) p g := by
+  intro q ps' hq
+  unfold setPh at hq
+  by_cases hqp : q = p
+  · subst hqp
+    left
+    rw [List.getElem?_set] at hq
+    simp only [if_true] at hq
+    split at hq
+    · simp only [Option.some.injEq] at hq; subst hq; exact ⟨rfl, hv⟩
+    · simp at hq
+  · rw [List.getElem?_set] at hq
+    simp only [show ¬ (p = q) from fun e => hqp e.symm, if_false] at hq
+    exact h q ps' hq
+
+theorem gridsAt_self_set (l : List (PhaseSt α)) (p : Nat) (g : Grid.State α) (v : PhaseSt α) (hv : v.grid = g) :
+    GridsAt l (setPh l p v) p g := by
+  intro q ps' hq
+  unfold setPh at hq
+  rw [List.getElem?_set] at hq
+  by_cases hqp : q = p
+  · subst hqp
+    simp only [if_true] at hq
+    split at hq
+    · simp only [Option.some.injEq] at hq; subst hq; exact Or.inl ⟨rfl, hv⟩
+    · simp at hq
+  · simp only [show ¬ (p = q) from fun e => hqp e.symm, if_false] at hq
+    exact Or.inr ⟨hqp, ps', hq, rfl⟩
+
+theorem gridsAt_growthRate (c : Cfg α) (s0 : List (PhaseSt α)) (s : St α) (a : EvalAns α) (y : Slice α) (p : Nat)
+    (g : Grid.State α) (h : GridsAt s0 s.ph p g) : GridsAt s0 (growthRate c s a y).1.ph p g := by
+  intro q ps' hq
+  obtain ⟨ps, hps, hg⟩ := growthRate_grid c s a y q ps' hq
+  rcases h q ps hps with ⟨rfl, h1⟩ | ⟨hne, psq, h1, h2⟩
+  · exact Or.inl ⟨rfl, by rw [hg, h1]⟩
+  · exact Or.inr ⟨hne, psq, h1, by rw [hg, h2]⟩
+
+theorem gridsAt_createLookup (T : α) (tab : List (TablePh α)) (s0 : List (PhaseSt α)) (s : St α) (p : Nat)
+    (g : Grid.State α) (h : GridsAt s0 s.ph p g) : GridsAt s0 (createLookup T tab s).ph p g := by
+  intro q ps' hq
+  obtain ⟨ps, hps, hg⟩ := createLookup_grid T tab s q ps' hq
+  rcases h q ps hps with ⟨rfl, h1⟩ | ⟨hne, psq, h1, h2⟩
+  · exact Or.inl ⟨rfl, by rw [hg, h1]⟩
+  · exact Or.inr ⟨hne, psq, h1, by rw [hg, h2]⟩
+
+theorem afterAdjust_grids (c : Cfg α) (s : St α) (p : Nat) (ps : PhaseSt α) (g2 : Grid.State α) (change : Bool)
+    (added : Option Nat) (u : UpdAns α) : GridsAt s.ph (afterAdjust c s p ps g2 change added u).ph p g2 := by
+  unfold afterAdjust
+  simp only
+  split
+  · apply gridsAt_growthRate
+    split
+    · split
+      · apply gridsAt_createLookup
+        exact gridsAt_set _ _ _ _ _ rfl (gridsAt_self_set _ _ _ _ rfl)
+      · exact gridsAt_set _ _ _ _ _ rfl (gridsAt_set _ _ _ _ _ rfl (gridsAt_self_set _ _ _ _ rfl))
+    · exact gridsAt_set _ _ _ _ _ rfl (gridsAt_set _ _ _ _ _ rfl (gridsAt_self_set _ _ _ _ rfl))
+  · exact gridsAt_self_set _ _ _ _ rfl
+
+def UpdShaped (c : Cfg α) (n : Nat) (u : UpdAns α) : Prop :=
+  (c.binary = true → u.table.length = n) ∧ AnsShaped c n u.regrow
+
+theorem afterAdjust_length (c : Cfg α) (s : St α) (p : Nat) (ps : PhaseSt α) (g2 : Grid.State α) (change : Bool)
+    (added : Option Nat) (u : UpdAns α) (hc : c.phases.length = s.ph.length)
+    (hcur : (s.cur c.nElem).ph.length = s.ph.length) (hu : UpdShaped c s.ph.length u) :
+    (afterAdjust c s p ps g2 change added u).ph.length = s.ph.length := by
+  unfold afterAdjust
+  simp only
+  split
+  · -- the state handed to the growth-rate call has one entry per phase
+    have key : ∀ s4 : St α, s4.ph.length = s.ph.length →
+        (growthRate c s4 u.regrow (s.cur c.nElem)).1.ph.length = s.ph.length := by
+      intro s4 h4
+      rw [← h4]
+      exact growthRate_length c s4 u.regrow _ (by rw [h4]; exact hc) (by rw [h4]; exact hu.2) (by rw [h4]; exact hcur)
+    apply key
+    split
+    · next hb =>
+      split
+      · rw [createLookup_length]; simp only [setPh_length]; rw [hu.1 hb]; simp
+      · simp only [setPh_length]
+    · simp only [setPh_length]
+  · simp only [setPh_length]
+
+/-- **the per-phase body of the size-distribution update never raises** on a consistent grid, for every backend answer of
+the right shape: a state vector with one entry per class, class-count limits with `minBins/2 < bins` -/
+theorem updatePh_total (c : Cfg α) (s : St α) (t : α) (p : Nat) (xp : List α) (u : UpdAns α) (ps : PhaseSt α)
+    (hp : s.ph[p]? = some ps) (hg : GridGood ps.grid) (hx : xp.length = ps.grid.bins)
+    (hm : ps.grid.minBins / 2 < ps.grid.bins) (hc : c.phases.length = s.ph.length)
+    (hcur : (s.cur c.nElem).ph.length = s.ph.length) (hu : UpdShaped c s.ph.length u) :
+    ∃ s', updatePh c s t p xp u = some s' := by
+  unfold updatePh
+  simp only [hp]
+  split
+  · exact ⟨_, rfl⟩
+  · rw [if_neg (by simpa using hx)]
+    -- UpdatePBMEuler: recording is off, the record step is the identity
+    have hup : ∃ g1, Grid.update ps.grid t xp = some g1 := by
+      unfold Grid.update Grid.record
+      simp [hg.2.2.2]
+    obtain ⟨g1, hg1⟩ := hup
+    rw [hg1]
+    simp only
+    have hgood1 := update_good ps.grid g1 t xp hg hx hg1
+    have hb1 : g1.minBins / 2 < g1.bins := by
+      unfold Grid.update Grid.record at hg1
+      simp only [hg.2.2.2, Bool.false_eq_true, if_false, Option.some.injEq] at hg1
+      rw [← hg1]; exact hm
+    obtain ⟨⟨g2, chg, added⟩, hadj⟩ := adjust_total g1 (ps.growth.all (fun v => decide (v < 0))) hgood1.1 hb1
+    rw [hadj]
+    simp only
+    have hlen := afterAdjust_length c s p ps g2 chg added u hc hcur hu
+    have hpl : p < s.ph.length := (List.getElem?_eq_some_iff.mp hp).1
+    have : ∃ psF, (afterAdjust c s p ps g2 chg added u).ph[p]? = some psF :=
+      ⟨_, List.getElem?_eq_getElem (by rw [hlen]; exact hpl)⟩
+    obtain ⟨psF, hF⟩ := this
+    rw [hF]
+    exact ⟨_, rfl⟩
+
+theorem gridsAt_set_new (l l1 : List (PhaseSt α)) (p : Nat) (g : Grid.State α) (v : PhaseSt α)
+    (h : GridsAt l l1 p g) : GridsAt l (setPh l1 p v) p v.grid := by
+  intro q ps' hq
+  unfold setPh at hq
+  rw [List.getElem?_set] at hq
+  by_cases hqp : q = p
+  · subst hqp
+    simp only [if_true] at hq
+    split at hq
+    · simp only [Option.some.injEq] at hq; subst hq; exact Or.inl ⟨rfl, rfl⟩
+    · simp at hq
+  · simp only [show ¬ (p = q) from fun e => hqp e.symm, if_false] at hq
+    rcases h q ps' hq with ⟨e, _⟩ | h2
+    · exact absurd e hqp
+    · exact Or.inr h2
+
+theorem updatePh_shape (c : Cfg α) (s s' : St α) (t : α) (p : Nat) (xp : List α) (u : UpdAns α)
+    (hc : c.phases.length = s.ph.length) (hcur : (s.cur c.nElem).ph.length = s.ph.length) (hu : UpdShaped c s.ph.length u)
+    (h : updatePh c s t p xp u = some s') :
+    s'.ph.length = s.ph.length ∧ ∃ g, GridsAt s.ph s'.ph p g := by
+  unfold updatePh at h
+  simp only at h
+  split at h
+  · simp at h
+  · next ps hps =>
+    split at h
+    · simp only [Option.some.injEq] at h; subst h
+      exact ⟨by simp only [setPh_length], _, gridsAt_self_set _ _ _ _ rfl⟩
+    · split at h
+      · simp at h
+      · split at h
+        · simp at h
+        · split at h
+          · simp at h
+          · next g2 chg added hadj =>
+            split at h
+            · simp at h
+            · next psF hF =>
+              simp only [Option.some.injEq] at h; subst h
+              refine ⟨by simp only [setPh_length]; exact afterAdjust_length c s p ps g2 chg added u hc hcur hu, (finishPh c psF).grid, ?_⟩
+              exact gridsAt_set_new _ _ _ _ _ (afterAdjust_grids c s p ps g2 chg added u)
+
+/-- phase and state vector fit: consistent grid, one entry per class, class-count limits that the re-mesh test can index -/
+def Ready (ps : PhaseSt α) (x : List α) : Prop :=
+  GridGood ps.grid ∧ x.length = ps.grid.bins ∧ ps.grid.minBins / 2 < ps.grid.bins
+
+theorem updateAll_total (c : Cfg α) (t : α) : ∀ (xs : List (List α)) (s : St α) (p : Nat) (us : List (UpdAns α)),
+    p + xs.length = s.ph.length → c.phases.length = s.ph.length → (s.cur c.nElem).ph.length = s.ph.length →
+    us.length = xs.length → (∀ u ∈ us, UpdShaped c s.ph.length u) →
+    (∀ i x, xs[i]? = some x → ∃ ps, s.ph[p + i]? = some ps ∧ Ready ps x) →
+    ∃ s', updateAll c t s p xs us = some s'
+  | [], s, p, us, _, _, _, _, _, _ => ⟨s, by simp [updateAll]⟩
+  | xp :: xs, s, p, us, hlen, hc, hcur, hus, hsh, hr => by
+    obtain ⟨ps, hps, hg, hx, hm⟩ := hr 0 xp (by simp)
+    simp only [Nat.add_zero] at hps
+    cases us with
+    | nil => simp at hus
+    | cons u us' =>
+      have hu : UpdShaped c s.ph.length u := hsh u (by simp)
+      obtain ⟨s1, h1⟩ := updatePh_total c s t p xp u ps hps hg hx hm hc hcur hu
+      obtain ⟨hl1, g, hga⟩ := updatePh_shape c s s1 t p xp u hc hcur hu h1
+      have hh := updatePh_hist c s s1 t p xp u h1
+      have hcur1 : (s1.cur c.nElem).ph.length = s1.ph.length := by
+        have : s1.cur c.nElem = s.cur c.nElem := by simp [St.cur, hh]
+        rw [this, hl1]; exact hcur
+      simp only [updateAll, List.headD_cons, List.tail_cons, h1]
+      apply updateAll_total c t xs s1 (p + 1) us'
+      · simp only [List.length_cons] at hlen; omega
+      · rw [hl1]; exact hc
+      · exact hcur1
+      · simpa using hus
+      · intro u' hu'; rw [hl1]; exact hsh u' (by simp [hu'])
+      · intro i x hx'
+        obtain ⟨psq, hq, hready⟩ := hr (i + 1) x (by simpa using hx')
+        have hlt : p + 1 + i < s1.ph.length := by
+          rw [hl1]; have := (List.getElem?_eq_some_iff.mp hq).1; omega
+        refine ⟨s1.ph[p + 1 + i], List.getElem?_eq_getElem hlt, ?_⟩
+        rcases hga (p + 1 + i) _ (List.getElem?_eq_getElem hlt) with ⟨e, _⟩ | ⟨_, psq', hq', hgrid⟩
+        · omega
+        · have : psq' = psq := by
+            have e : p + (i + 1) = p + 1 + i := by omega
+            rw [e] at hq; rw [hq] at hq'; exact (Option.some.inj hq').symm
+          subst this
+          unfold Ready at hready ⊢
+          rw [hgrid]; exact hready
+
+theorem processX_len (k : Nat) (mr : α) (x R : List α) : (PSD.processX k mr x R).length = min x.length R.length := by
+  unfold PSD.processX; simp
+
+theorem advanceStage_length (ps : PhaseSt α) (xF xL xB : List α) (yp : PSlice α) (dt : α) :
+    (advanceStage ps xF xL xB yp dt).length = xB.length := by
+  simp [advanceStage]
+
+/-- a state whose phases are all ready for the size-distribution update: consistent grids and usable class-count limits -/
+def StGood (c : Cfg α) (s : St α) : Prop :=
+  c.phases.length = s.ph.length ∧ (s.cur c.nElem).ph.length = s.ph.length ∧
+  ∀ ps ∈ s.ph, GridGood ps.grid ∧ ps.grid.minBins / 2 < ps.grid.bins
+
+theorem depEval_length (c : Cfg α) (s : St α) (t : α) (x : List (List α)) (a : EvalAns α) (y : Slice α)
+    (hc : c.phases.length = s.ph.length) (ha : AnsShaped c s.ph.length a) (hx : x.length = s.ph.length) :
+    (depEval c s t x a y).1.ph.length = s.ph.length ∧ (depEval c s t x a y).2.ph.length = s.ph.length := by
+  have hy2 : (nucleation c s t x a (KWNFull.massBalance c s x a { y with time := t, temp := a.T })).ph.length = s.ph.length := by
+    simp [nucleation, zip3_length, dtPhases, hc, ha.1, hx]
+  unfold depEval
+  simp only
+  refine ⟨growthRate_length c s a _ hc ha hy2, ?_⟩
+  unfold growthRate
+  split
+  · unfold growthBinary; simp only [List.length_mapIdx]; exact hy2
+  · unfold growthMulti; simp only [List.length_map, zip3_length]; rw [ha.1, hy2]; simp
+
+/-- **an accepted Euler step never raises**: from a state with consistent grids, for every configuration, every proposed step
+and every backend answer of the right shape (one record per phase; `none` results of the growth request included), the
+composed step returns a new state -/
+theorem eulerStep_total (c : Cfg α) (s : St α) (tf dtminS dtmaxS : α) (aPost : EvalAns α) (upd : List (UpdAns α))
+    (hs : StGood c s) (ha : AnsShaped c s.ph.length aPost) (hul : upd.length = s.ph.length)
+    (hu : ∀ u ∈ upd, UpdShaped c s.ph.length u) :
+    ∃ o, eulerStep c s tf dtminS dtmaxS aPost upd = some o := by
+  obtain ⟨hc, hcur, hgood⟩ := hs
+  set dt := acceptedDt c s tf dtminS dtmaxS with hdt
+  -- the processed new state: one distribution per phase, each with one entry per class
+  have hentry : ∀ (i : Nat) (ps : PhaseSt α), s.ph[i]? = some ps → ∃ x0 : List α, (entryX c s)[i]? = some x0 ∧ x0.length = ps.grid.bins := by
+    intro i ps hi
+    have hinv := C08.inv_spec ps.grid (hgood ps (List.mem_of_getElem? hi)).1.1
+    refine ⟨PSD.processX ps.rdfIdx c.minRadius ps.grid.psd ps.grid.size, ?_, ?_⟩
+    · simp [entryX, processAll, List.getElem?_zipWith, List.getElem?_map, hi]
+    · rw [processX_len, hinv.2.1, hinv.2.2.2.1]; simp
+  have hadv : ∀ (i : Nat) (ps : PhaseSt α), s.ph[i]? = some ps → ∃ xn : List α, (advanced c s dt)[i]? = some xn ∧ xn.length = ps.grid.bins := by
+    intro i ps hi
+    obtain ⟨x0, hx0, hl0⟩ := hentry i ps hi
+    have hil : i < s.ph.length := (List.getElem?_eq_some_iff.mp hi).1
+    have hcu : (s.cur c.nElem).ph[i]? = some ((s.cur c.nElem).ph[i]'(by rw [hcur]; exact hil)) := List.getElem?_eq_getElem _
+    refine ⟨advanceStage ps x0 ps.grid.psd x0 ((s.cur c.nElem).ph[i]'(by rw [hcur]; exact hil)) dt, ?_, ?_⟩
+    · simp only [advanced, stageX, List.getElem?_map, zip3_getElem?, hi, hx0, hcu, Option.map_some]
+    · rw [advanceStage_length]; exact hl0
+  have hxP : ∀ (i : Nat) (ps : PhaseSt α), s.ph[i]? = some ps →
+      ∃ x : List α, (processAll c s (advanced c s dt))[i]? = some x ∧ x.length = ps.grid.bins := by
+    intro i ps hi
+    obtain ⟨xn, hxn, hln⟩ := hadv i ps hi
+    have hinv := C08.inv_spec ps.grid (hgood ps (List.mem_of_getElem? hi)).1.1
+    refine ⟨PSD.processX ps.rdfIdx c.minRadius xn ps.grid.size, ?_, ?_⟩
+    · simp [processAll, List.getElem?_zipWith, hi, hxn]
+    · rw [processX_len, hln, hinv.2.2.2.1]; simp
+  have hxPlen : (processAll c s (advanced c s dt)).length = s.ph.length := by
+    simp [processAll, advanced, stageX, entryX, zip3_length, hcur]
+  have hev := depEval_length c s ((s.cur c.nElem).time + dt) (processAll c s (advanced c s dt)) aPost (s.cur c.nElem) hc ha hxPlen
+  unfold eulerStep
+  simp only
+  rw [← hdt]
+  have htot : ∃ sD, finishStep c (evaluated c s tf dtminS dtmaxS aPost) ((s.cur c.nElem).time + dt)
+      (processAll c s (advanced c s dt)) upd = some sD := by
+    unfold finishStep evaluated
+    simp only
+    rw [← hdt]
+    apply updateAll_total
+    · simp only [Nat.zero_add]; rw [hxPlen, hev.1]
+    · rw [hev.1]; exact hc
+    · have e1 := hev.1; have e2 := hev.2
+      simp only [St.cur, List.headD_cons] at e1 e2 ⊢; rw [e2, e1]
+    · rw [hul, hxPlen]
+    · intro u hu'; rw [hev.1]; exact hu u hu'
+    · intro i x hx
+      simp only [Nat.zero_add]
+      have hil : i < s.ph.length := by rw [← hxPlen]; exact (List.getElem?_eq_some_iff.mp hx).1
+      have hsi : s.ph[i]? = some s.ph[i] := List.getElem?_eq_getElem hil
+      obtain ⟨x', hx', hlx⟩ := hxP i _ hsi
+      have : x' = x := by rw [hx] at hx'; exact (Option.some.inj hx').symm
+      subst this
+      have hei : i < (depEval c s ((s.cur c.nElem).time + dt) (processAll c s (advanced c s dt)) aPost (s.cur c.nElem)).1.ph.length := by
+        rw [hev.1]; exact hil
+      refine ⟨_, List.getElem?_eq_getElem hei, ?_⟩
+      obtain ⟨ps0, h0, hg0⟩ := growthRate_grid c s aPost _ i _ (by
+        have := List.getElem?_eq_getElem hei
+        unfold depEval at this
+        exact this)
+      have : ps0 = s.ph[i] := by rw [hsi] at h0; exact (Option.some.inj h0).symm
+      subst this
+      unfold Ready
+      have hg0' : ((depEval c s ((s.cur c.nElem).time + dt) (processAll c s (advanced c s dt)) aPost (s.cur c.nElem)).1.ph[i]'hei).grid
+          = s.ph[i].grid := hg0
+      rw [hg0']
+      exact ⟨(hgood _ (List.getElem_mem hil)).1, hlx, (hgood _ (List.getElem_mem hil)).2⟩
+  obtain ⟨sD, hD⟩ := htot
+  rw [hD]
+  exact ⟨_, rfl⟩
+
+/-! ### the class-count limits stay usable: the whole run never raises -/
+
+/-- a consistent grid whose class-count limits keep the re-mesh test indexable whatever the automatic adjustment does next:
+`minBins/2` is below the current class count and below every class count an adjustment can produce -/
+def GridReady (g : Grid.State α) : Prop :=
+  GridGood g ∧ g.minBins / 2 < g.bins ∧ g.minBins / 2 < g.maxBins ∧ g.minBins / 2 < g.origBins
+
+open KawinV.Grid in
+theorem add_fields (g g' : Grid.State α) (k : Nat) (h : Grid.add g k = some g') :
+    g'.bins = g.bins + k ∧ g'.origBins = g.origBins := by
+  unfold Grid.add at h
+  split at h
+  · simp only [Option.some.injEq] at h; subst h; exact ⟨rfl, rfl⟩
+  · simp at h
+
+open KawinV.Grid in
+theorem change_fields (g g' : Grid.State α) (a b : α) (n : Nat) (h : Grid.change g a b (some n) false = some g') :
+    g'.bins = n ∧ g'.origBins = g.origBins := by
+  unfold Grid.change at h
+  simp only [Bool.false_eq_true, if_false] at h
+  split at h
+  · simp at h
+  · split at h <;>
+    (simp only [Option.some.injEq] at h; subst h; simp [Grid.reset, Grid.retarget])
+
+open KawinV.Grid in
+theorem adjust_ready (g g' : Grid.State α) (cd chg : Bool) (ni : Option Nat) (h : GridReady g)
+    (ha : Grid.adjust g cd = some (g', chg, ni)) : GridReady g' := by
+  obtain ⟨hgood, hb, hmx, ho⟩ := h
+  have hgood' := adjust_good g g' cd chg ni hgood ha
+  refine ⟨hgood', ?_⟩
+  have hcfg : g'.minBins = g.minBins ∧ g'.maxBins = g.maxBins := by
+    -- from adjust_good's proof: configuration fields are kept
+    unfold Grid.adjust at ha
+    split at ha
+    · simp at ha
+    · next s1 c1 n1 hadd =>
+      have hc1 : s1.minBins = g.minBins ∧ s1.maxBins = g.maxBins := by
+        unfold Grid.adjustAdd at hadd
+        split at hadd
+        · simp at hadd
+        · split at hadd
+          · rw [Option.map_eq_some_iff] at hadd
+            obtain ⟨t, hadd', heq⟩ := hadd
+            have : t = s1 := by simpa using congrArg Prod.fst heq
+            subst this
+            exact ⟨(add_cfg _ _ _ hadd').1, (add_cfg _ _ _ hadd').2.1⟩
+          · simp only [Option.some.injEq, Prod.mk.injEq] at hadd
+            rw [← hadd.1]; exact ⟨rfl, rfl⟩
+      split at ha
+      · simp at ha
+      · simp only [Option.some.injEq, Prod.mk.injEq] at ha
+        rw [← ha.1]; exact hc1
+      · rw [Option.map_eq_some_iff] at ha
+        obtain ⟨t, hch, heq⟩ := ha
+        have : t = g' := by simpa using congrArg Prod.fst heq
+        subst this
+        have hc2 := change_cfg _ _ _ _ _ _ hch
+        exact ⟨by rw [hc2.1, hc1.1], by rw [hc2.2.1, hc1.2]⟩
+  -- class count and original class count after the adjustment
+  have hbins : (g.bins ≤ g'.bins ∨ g'.bins = g.minBins ∨ g'.bins = g.maxBins) ∧ g'.origBins = g.origBins := by
+    unfold Grid.adjust at ha
+    split at ha
+    · simp at ha
+    · next s1 c1 n1 hadd =>
+      have h1 : g.bins ≤ s1.bins ∧ s1.origBins = g.origBins ∧ s1.minBins = g.minBins ∧ s1.maxBins = g.maxBins := by
+        unfold Grid.adjustAdd at hadd
+        split at hadd
+        · simp at hadd
+        · split at hadd
+          · rw [Option.map_eq_some_iff] at hadd
+            obtain ⟨t, hadd', heq⟩ := hadd
+            have : t = s1 := by simpa using congrArg Prod.fst heq
+            subst this
+            have hf := add_fields _ _ _ hadd'
+            have hc := add_cfg _ _ _ hadd'
+            exact ⟨by rw [hf.1]; omega, hf.2, hc.1, hc.2.1⟩
+          · simp only [Option.some.injEq, Prod.mk.injEq] at hadd
+            rw [← hadd.1]; exact ⟨le_refl _, rfl, rfl, rfl⟩
+      have hi1 := C08.adjustAdd_inv g s1 c1 n1 hgood.1 hadd
+      split at ha
+      · simp at ha
+      · simp only [Option.some.injEq, Prod.mk.injEq] at ha
+        rw [← ha.1]; exact ⟨Or.inl h1.1, h1.2.1⟩
+      · next a b n hmt =>
+        rw [Option.map_eq_some_iff] at ha
+        obtain ⟨t, hch, heq⟩ := ha
+        have : t = g' := by simpa using congrArg Prod.fst heq
+        subst this
+        have hf := change_fields _ _ _ _ _ hch
+        have hsp := C08.meshTarget_spec s1 cd a b n hi1 hmt
+        refine ⟨?_, by rw [hf.2, h1.2.1]⟩
+        rcases hsp.2.2 with e | e
+        · right; left; rw [hf.1, e, h1.2.2.1]
+        · right; right; rw [hf.1, e, h1.2.2.2]
+  rw [hcfg.1, hcfg.2, hbins.2]
+  refine ⟨?_, hmx, ho⟩
+  rcases hbins.1 with h1 | h1 | h1
+  · omega
+  · rw [h1]; have := hgood.2.1; omega
+  · rw [h1]; exact hmx
+
+/-- any property of grids that the grid operations of a step preserve is preserved by the whole step -/
+structure StepClosed (c : Cfg α) (Q : Grid.State α → Prop) : Prop where
+  reset : ∀ g, Q g → Q (Grid.reset g true)
+  update : ∀ g g1 t N, Q g → N.length = g.bins → Grid.update g t N = some g1 → Q g1
+  adjust : ∀ g g' cd chg ni, Q g → Grid.adjust g cd = some (g', chg, ni) → Q g'
+  finish : ∀ ps : PhaseSt α, Q ps.grid → Q (finishPh c ps).grid
+
+def AllQ (Q : Grid.State α → Prop) (l : List (PhaseSt α)) : Prop := ∀ ps ∈ l, Q ps.grid
+
+theorem allQ_set (Q : Grid.State α → Prop) (l : List (PhaseSt α)) (p : Nat) (v : PhaseSt α) (h : AllQ Q l) (hv : Q v.grid) :
+    AllQ Q (setPh l p v) := by
+  intro ps hps
+  unfold setPh at hps
+  rcases List.mem_or_eq_of_mem_set hps with h1 | h1
+  · exact h ps h1
+  · rw [h1]; exact hv
+
+theorem createLookup_allQ (Q : Grid.State α → Prop) (T : α) (tab : List (TablePh α)) (s : St α) (h : AllQ Q s.ph) :
+    AllQ Q (createLookup T tab s).ph := by
+  intro ps hps
+  rw [List.mem_iff_getElem?] at hps
+  obtain ⟨q, hq⟩ := hps
+  obtain ⟨ps0, h0, hg⟩ := createLookup_grid T tab s q ps hq
+  rw [hg]; exact h ps0 (List.mem_of_getElem? h0)
+
+theorem growthRate_allQ (Q : Grid.State α → Prop) (c : Cfg α) (s : St α) (a : EvalAns α) (y : Slice α) (h : AllQ Q s.ph) :
+    AllQ Q (growthRate c s a y).1.ph := by
+  intro ps hps
+  rw [List.mem_iff_getElem?] at hps
+  obtain ⟨q, hq⟩ := hps
+  obtain ⟨ps0, h0, hg⟩ := growthRate_grid c s a y q ps hq
+  rw [hg]; exact h ps0 (List.mem_of_getElem? h0)
+
+theorem afterAdjust_allQ (Q : Grid.State α → Prop) (c : Cfg α) (s : St α) (p : Nat) (ps : PhaseSt α) (g2 : Grid.State α)
+    (change : Bool) (added : Option Nat) (u : UpdAns α) (hg : AllQ Q s.ph) (hg2 : Q g2) :
+    AllQ Q (afterAdjust c s p ps g2 change added u).ph := by
+  intro ps' hps
+  rw [List.mem_iff_getElem?] at hps
+  obtain ⟨q, hq⟩ := hps
+  rcases afterAdjust_grids c s p ps g2 change added u q ps' hq with ⟨_, e⟩ | ⟨_, psq, h0, e⟩
+  · rw [e]; exact hg2
+  · rw [e]; exact hg psq (List.mem_of_getElem? h0)
+
+theorem updatePh_allQ (Q : Grid.State α → Prop) (c : Cfg α) (hQ : StepClosed c Q) (s s' : St α) (t : α) (p : Nat)
+    (xp : List α) (u : UpdAns α) (hg : AllQ Q s.ph) (h : updatePh c s t p xp u = some s') : AllQ Q s'.ph := by
+  unfold updatePh at h
+  simp only at h
+  split at h
+  · simp at h
+  · next ps hps =>
+    have hps' : Q ps.grid := hg ps (List.mem_of_getElem? hps)
+    split at h
+    · simp only [Option.some.injEq] at h; subst h
+      exact allQ_set Q _ _ _ hg (hQ.reset _ hps')
+    · split at h
+      · simp at h
+      · next hlen =>
+        split at h
+        · simp at h
+        · next g1 hu =>
+          have hg1 := hQ.update ps.grid g1 t xp hps' (by simpa using hlen) hu
+          split at h
+          · simp at h
+          · next g2 change added hadj =>
+            have hg2 := hQ.adjust g1 g2 _ change added hg1 hadj
+            have hs3 := afterAdjust_allQ Q c s p ps g2 change added u hg hg2
+            split at h
+            · simp at h
+            · next psF hF =>
+              simp only [Option.some.injEq] at h
+              subst h
+              exact allQ_set Q _ _ _ hs3 (hQ.finish psF (hs3 psF (List.mem_of_getElem? hF)))
+
+theorem updateAll_allQ (Q : Grid.State α → Prop) (c : Cfg α) (hQ : StepClosed c Q) (t : α) :
+    ∀ (xs : List (List α)) (s s' : St α) (p : Nat) (us : List (UpdAns α)),
+    AllQ Q s.ph → updateAll c t s p xs us = some s' → AllQ Q s'.ph
+  | [], s, s', p, us, hg, h => by simp [updateAll] at h; subst h; exact hg
+  | xp :: xs, s, s', p, us, hg, h => by
+    simp only [updateAll] at h
+    split at h
+    · simp at h
+    · next s1 h1 => exact updateAll_allQ Q c hQ t xs s1 s' (p+1) us.tail (updatePh_allQ Q c hQ s s1 t p xp _ hg h1) h
+
+theorem eulerStep_allQ (Q : Grid.State α → Prop) (c : Cfg α) (hQ : StepClosed c Q) (s : St α) (tf dtminS dtmaxS : α)
+    (aPost : EvalAns α) (upd : List (UpdAns α)) (o : StepOut α) (hg : AllQ Q s.ph)
+    (h : eulerStep c s tf dtminS dtmaxS aPost upd = some o) : AllQ Q o.st.ph := by
+  simp only [eulerStep] at h
+  split at h
+  · simp at h
+  · next sD hD =>
+    simp only [Option.some.injEq] at h; subst h
+    unfold finishStep at hD
+    refine updateAll_allQ Q c hQ _ _ { (evaluated c s tf dtminS dtmaxS aPost).1 with
+      hist := (evaluated c s tf dtminS dtmaxS aPost).2 :: (evaluated c s tf dtminS dtmaxS aPost).1.hist } _ _ _ ?_ hD
+    show AllQ Q (evaluated c s tf dtminS dtmaxS aPost).1.ph
+    unfold evaluated depEval
+    exact growthRate_allQ Q c s aPost _ hg
+
+theorem gridReady_closed (c : Cfg α) : StepClosed c (GridReady (α := α)) where
+  reset := by
+    intro g ⟨hgood, hb, hmx, ho⟩
+    refine ⟨reset_good g hgood, ?_⟩
+    simp only [Grid.reset, if_true]
+    exact ⟨ho, hmx, ho⟩
+  update := by
+    intro g g1 t N ⟨hgood, hb, hmx, ho⟩ hN hu
+    refine ⟨update_good g g1 t N hgood hN hu, ?_⟩
+    unfold Grid.update Grid.record at hu
+    simp only [hgood.2.2.2, Bool.false_eq_true, if_false, Option.some.injEq] at hu
+    rw [← hu]; exact ⟨hb, hmx, ho⟩
+  adjust := fun g g' cd chg ni h ha => adjust_ready g g' cd chg ni h ha
+  finish := by
+    intro ps ⟨hgood, hb, hmx, ho⟩
+    exact ⟨finishPh_good c ps hgood, hb, hmx, ho⟩
+
+theorem updateAll_length (c : Cfg α) (t : α) : ∀ (xs : List (List α)) (s s' : St α) (p : Nat) (us : List (UpdAns α)),
+    c.phases.length = s.ph.length → (s.cur c.nElem).ph.length = s.ph.length → us.length = xs.length →
+    (∀ u ∈ us, UpdShaped c s.ph.length u) → updateAll c t s p xs us = some s' → s'.ph.length = s.ph.length
+  | [], s, s', p, us, _, _, _, _, h => by simp [updateAll] at h; subst h; rfl
+  | xp :: xs, s, s', p, us, hc, hcur, hus, hsh, h => by
+    cases us with
+    | nil => simp at hus
+    | cons u us' =>
+      simp only [updateAll, List.headD_cons, List.tail_cons] at h
+      split at h
+      · simp at h
+      · next s1 h1 =>
+        have hu : UpdShaped c s.ph.length u := hsh u (by simp)
+        obtain ⟨hl1, _⟩ := updatePh_shape c s s1 t p xp u hc hcur hu h1
+        have hh := updatePh_hist c s s1 t p xp u h1
+        have hcur1 : (s1.cur c.nElem).ph.length = s1.ph.length := by
+          have : s1.cur c.nElem = s.cur c.nElem := by simp [St.cur, hh]
+          rw [this, hl1]; exact hcur
+        rw [← hl1]
+        exact updateAll_length c t xs s1 s' (p + 1) us' (by rw [hl1]; exact hc) hcur1 (by simpa using hus)
+          (by intro u' hu'; rw [hl1]; exact hsh u' (by simp [hu'])) h
+
+/-- what the totality theorems assume of a state: one configuration record and one recorded per-phase record per phase, every
+grid consistent with usable class-count limits -/
+def StReady (c : Cfg α) (s : St α) : Prop :=
+  c.phases.length = s.ph.length ∧ (s.cur c.nElem).ph.length = s.ph.length ∧ AllQ GridReady s.ph
+
+theorem stReady_good (c : Cfg α) (s : St α) (h : StReady c s) : StGood c s :=
+  ⟨h.1, h.2.1, fun ps hps => ⟨(h.2.2 ps hps).1, (h.2.2 ps hps).2.1⟩⟩
+
+/-- readiness is an invariant of the accepted Euler step -/
+theorem eulerStep_ready (c : Cfg α) (s : St α) (tf dtminS dtmaxS : α) (aPost : EvalAns α) (upd : List (UpdAns α))
+    (o : StepOut α) (hs : StReady c s) (ha : AnsShaped c s.ph.length aPost) (hul : upd.length = s.ph.length)
+    (hu : ∀ u ∈ upd, UpdShaped c s.ph.length u) (h : eulerStep c s tf dtminS dtmaxS aPost upd = some o) :
+    StReady c o.st ∧ o.st.ph.length = s.ph.length := by
+  have hq := eulerStep_allQ GridReady c (gridReady_closed c) s tf dtminS dtmaxS aPost upd o hs.2.2 h
+  obtain ⟨hc, hcur, _⟩ := hs
+  have hxPlen : (processAll c s (advanced c s (acceptedDt c s tf dtminS dtmaxS))).length = s.ph.length := by
+    simp [processAll, advanced, stageX, entryX, zip3_length, hcur]
+  have hev := depEval_length c s ((s.cur c.nElem).time + acceptedDt c s tf dtminS dtmaxS)
+    (processAll c s (advanced c s (acceptedDt c s tf dtminS dtmaxS))) aPost (s.cur c.nElem) hc ha hxPlen
+  have hE1 : (evaluated c s tf dtminS dtmaxS aPost).1.ph.length = s.ph.length := hev.1
+  have hE2 : (evaluated c s tf dtminS dtmaxS aPost).2.ph.length = s.ph.length := hev.2
+  simp only [eulerStep] at h
+  split at h
+  · simp at h
+  · next sD hD =>
+    simp only [Option.some.injEq] at h; subst h
+    have hhist := finishStep_hist _ _ _ _ _ _ hD
+    unfold finishStep at hD
+    have hlen : sD.ph.length = s.ph.length := by
+      have := updateAll_length c _ _ { (evaluated c s tf dtminS dtmaxS aPost).1 with
+          hist := (evaluated c s tf dtminS dtmaxS aPost).2 :: (evaluated c s tf dtminS dtmaxS aPost).1.hist } sD 0 upd
+        (by show c.phases.length = (evaluated c s tf dtminS dtmaxS aPost).1.ph.length; rw [hE1]; exact hc)
+        (by show ((St.cur c.nElem { (evaluated c s tf dtminS dtmaxS aPost).1 with
+                hist := (evaluated c s tf dtminS dtmaxS aPost).2 :: (evaluated c s tf dtminS dtmaxS aPost).1.hist }).ph.length
+              = (evaluated c s tf dtminS dtmaxS aPost).1.ph.length)
+            simp only [St.cur, List.headD_cons]; rw [hE2, hE1])
+        (by rw [hul, hxPlen])
+        (by intro u hu'; show UpdShaped c (evaluated c s tf dtminS dtmaxS aPost).1.ph.length u; rw [hE1]; exact hu u hu')
+        hD
+      rw [this]; exact hE1
+    refine ⟨⟨by rw [hlen]; exact hc, ?_, hq⟩, hlen⟩
+    simp only [St.cur, hhist, List.headD_cons]
+    rw [hlen]; exact hE2
+
+/-- **a whole Euler run never raises**: from a ready state, for every number of steps and every stream of backend answers of the
+right shape — including `none` results of the growth request at any step —, the loop of the solver runs through -/
+theorem eulerRun_total (c : Cfg α) (tf dtminS : α) :
+    ∀ (steps : List (EvalAns α × List (UpdAns α))) (s : St α) (m : α), StReady c s →
+      (∀ st ∈ steps, AnsShaped c s.ph.length st.1 ∧ st.2.length = s.ph.length ∧ ∀ u ∈ st.2, UpdShaped c s.ph.length u) →
+      ∃ r, runSteps c tf dtminS s m (steps.map (fun st => StepAns.euler st.1 st.2)) = some r
+  | [], s, m, _, _ => ⟨(s, m), by simp [runSteps]⟩
+  | st :: rest, s, m, hs, hsh => by
+    simp only [List.map_cons, runSteps]
+    split
+    · obtain ⟨ha, hul, hu⟩ := hsh st (by simp)
+      obtain ⟨o, ho⟩ := eulerStep_total c s tf dtminS m st.1 st.2 (stReady_good c s hs) ha hul hu
+      simp only [anyStep, ho]
+      obtain ⟨hr, hl⟩ := eulerStep_ready c s tf dtminS m st.1 st.2 o hs ha hul hu ho
+      exact eulerRun_total c tf dtminS rest o.st _ hr (by
+        intro st' hst'; rw [hl]; exact hsh st' (by simp [hst']))
+    · exact ⟨_, rfl⟩
+
+
 /-! ### non-vacuity
 
 `GridGood` is satisfiable (the grid a `PopulationBalanceModel` is constructed with).  The hypothesis `… = some o` of the step
@@ -1154,6 +1898,11 @@ def g0 : Grid.State ℚ := Grid.init (1 : ℚ) 20 2 1 4
 
 example : GridGood g0 :=
   ⟨C08.inv_init (1 : ℚ) 20 2 1 4 (by decide) (by norm_num) (by norm_num [Grid.amax2]), by decide, by decide, by decide⟩
+
+/-- the hypotheses of the totality theorems are satisfiable: the constructed grid is ready -/
+example : GridReady g0 :=
+  ⟨⟨C08.inv_init (1 : ℚ) 20 2 1 4 (by decide) (by norm_num) (by norm_num [Grid.amax2]), by decide, by decide, by decide⟩,
+   by decide, by decide, by decide⟩
 
 variable [Trans ℚ]
 
